@@ -246,7 +246,14 @@ def run_harness(stream, cases, workdir, extra_env=None, shards=NPROC, timeout=12
         cmd = (prefix or []) + [HARNESS_BIN, stream, cin, cout]
         p = subprocess.run(cmd, env=e, stdout=subprocess.PIPE, stderr=subprocess.STDOUT, text=True, timeout=timeout)
         if p.returncode != 0:
-            raise RuntimeError(f"harness {stream} shard {i} failed rc={p.returncode}:\n{p.stdout[-3000:]}")
+            # the process died (stack overflow, abort, signal): the last id in the progress file is the case it died on
+            try:
+                last = open(cout + ".progress").read().split()[-1]
+                culprit = next(c for c in chunks[i] if str(c["id"]) == last)
+            except Exception:
+                raise RuntimeError(f"harness {stream} shard {i} failed rc={p.returncode}:\n{p.stdout[-3000:]}")
+            raise ImplementationPanic(culprit, f"the harness process died (exit status {p.returncode}) while running this case: "
+                                               + p.stdout[-400:].strip())
         return json.load(open(cout))
 
     obs = {}
